@@ -657,7 +657,68 @@ def run_C19(ctx):
     ctx.extra["sqrti_rand_results_validated"] = validated
 
 
+def run_C18(ctx):
+    import re
+    # design: all interleavings
+    for (n, k) in ([(2, 2), (3, 2)] if ctx.quick else [(2, 2), (3, 2), (3, 3), (4, 2)]):
+        r = run_tlc(f"{ctx.prop}-atomic-{n}-{k}", "Xadd", {"N": n, "K": k, "Bits": 3, "Algo": "atomic"}, invariants=["Inv"],
+                    properties=["Termination"], workers=8, timeout=900)
+        if r.violation:
+            ctx.violation(f"Xadd (atomic) N={n} K={k}: lost update or neighbour touched in the design", {"kind": "tlc", "output": r.violation[:3000]})
+        ctx.add_tlc(f"Xadd atomic N={n} K={k}", r)
+    for algo in ("split", "wide"):
+        r = run_tlc(f"{ctx.prop}-{algo}", "Xadd", {"N": 2, "K": 2, "Bits": 3, "Algo": algo}, invariants=["Inv"], workers=4,
+                    timeout=600, expect_violation=True)
+        if not r.violation:
+            raise ToolError(f"negative control failed: Xadd with Algo={algo} satisfies the invariants")
+    ctx.extra["negative_controls"] = "Algo=split loses an update, Algo=wide touches the neighbour: both rejected by TLC, as they must"
+    # binding: concurrent stress on the real engines, finals validated by TLC
+    out = os.path.join(ctx.workdir, "xadd.ndjson")
+    nconf, count = (12, 200000) if ctx.quick else (200, 2000000)
+    rv(["xadd", "--seed", str(ctx.seed), "--configs", str(nconf), "--count", str(count), "--out", out], timeout=3000)
+    summ = json.load(open(out + ".summary.json"))
+    for c in summ["crashed"]:
+        ctx.violation(f"concurrent atomic-add run crashed ({c['how']})", {"kind": "xadd-crash", "config": c["config"]})
+    lines = open(out).read().splitlines()
+    attempt = 0
+    validated = 0
+    while lines and attempt < 8:
+        attempt += 1
+        cur = os.path.join(ctx.workdir, f"xadd.try{attempt}.ndjson")
+        open(cur, "w").write("\n".join(lines) + "\n")
+        rr = run_tlc(f"{ctx.prop}-trace-{attempt}", "TraceXadd", dict(BASE_CONSTS), spec="TraceSpec", invariants=["Mark"],
+                     postcondition="TraceAccepted", workers=1, timeout=900, env={"TRACE": cur}, expect_violation=True)
+        ctx.states += rr.distinct
+        ctx.transitions += rr.generated
+        m = re.search(r'<<"TRACE-ACCEPTED", (\d+)>>', rr.out)
+        if m:
+            validated += int(m.group(1))
+            break
+        m = re.search(r'<<"TRACE-REJECTED", (\d+), (\d+)>>', rr.out)
+        if not m:
+            raise ToolError("TraceXadd failed:\n" + rr.out[-2000:])
+        pos = int(m.group(1))
+        ev = json.loads(lines[pos - 1])
+        ctx.violation(f"concurrent atomic adds ({ev['width']*8}-bit, engines {ev['engines']}, {ev['count']} adds each): final word {ev['final']} is not init + sum of addends, or other bytes changed, or an execution failed {ev['errors']}",
+                      {"kind": "xadd", "event": {k: ev[k] for k in ("width", "init", "adds", "final", "ok", "errors", "engines", "count", "word_offset")}})
+        validated += pos - 1
+        lines = lines[:pos - 1] + lines[pos:]
+    ctx.traces += validated
+    ctx.evaluations += summ["configs"]
+    ctx.extra["atomic_adds_executed"] = sum(len(json.loads(x)["engines"]) * json.loads(x)["count"] for x in open(out).read().splitlines())
+    if open(out).read().strip():
+        e0 = json.loads(open(out).readline())
+        ctx.sample({k: e0[k] for k in ("width", "engines", "count", "init", "final")})
+    # misaligned atomic adds: an interpreter error that leaves memory unchanged (bounds family, xadd only)
+    recs = [x for x in exec_cases(ctx, "xaddalign", ["bounds"], 3 if ctx.quick else 1, timeout=1500) if x["case"]["id"][0] == "b" and x["case"]["id"][2] == 4]
+    ctx.extra["misaligned_cases"] = sum(1 for x in recs if x["exp"]["class"] == "unaligned")
+    replay_exec(ctx, "xaddalign", recs, ["interp", "jit", "cl"])
+    ctx.nontrivial = summ["configs"] + len(recs)
+
+
 CHECKS = {
+    "C18": {"level": "exploration", "run": run_C18, "assumptions": ASSUME_COMMON + ["atomicity of the hardware instructions is only stressed, not proved"],
+            "rule": "design: Xadd.tla, all interleavings of N <= 3 (thorough 4) processes x K <= 2 (3) adds with wrapping addends and two neighbour words (NoLostUpdate, NeighboursUntouched, termination), with negative controls split / wide; binding: 12 (thorough 200) configurations of 2..16 threads mixing interpreter (through registered allowed memory), x86-64 JIT and Cranelift, 32 and 64 bit, 2*10^5 (2*10^6) adds per thread behind a barrier, final word and surrounding bytes validated by TLC (TraceXadd); every atomic add of the bounds family incl. misaligned ones replayed; non-trivial = configurations + cases"},
     "C19": {"level": "model_checking", "run": run_C19, "assumptions": ASSUME_COMMON + ["stdout of bpf_trace_printf captured through a pipe on fd 1"],
             "rule": "MC_Helpers: gather_bytes on 10 boundary words^5 (sampled), memfrob on every length 0..64 at 5 offsets of a canary-surrounded buffer (once and twice), strcmp on all ordered pairs of 16 strings incl. prefixes and bytes >= 0x80 plus null pointers, bpf_trace_printf with 16^k-1, 16^k, 16^k+1 (k = 0..16) in each printed position (returned = bytes printed = specified); sqrti at k^2, k^2+-1 around powers of two and random, rand on boundary (min,max) pairs incl. max = 2^64-1, validated by TLC against SqrtOk / RandOk; distinct by case"},
     "C17": {"level": "model_checking", "run": run_C17, "assumptions": ASSUME_COMMON,
@@ -835,6 +896,11 @@ MANIFEST_TEXT.update({
 MANIFEST_TEXT.update({
     "C19": {"technique": "TLA+ helper functions (Helpers.tla) evaluated by TLC on boundary cases and replayed; recorded sqrti/rand results validated by TLC predicates",
             "text": "gather_bytes, memfrob, strcmp and the printed length are functions in the specification; TLC enumerates boundary arguments (checking memfrob's involution and strcmp's zero-iff-equal law in the model) and the real helpers must return exactly those results and touch exactly those bytes; sqrti and rand are relations (floating-point rounding, randomness) so their recorded results are validated against the specified predicates.",
+            "note": NOTE_COMMON},
+})
+MANIFEST_TEXT.update({
+    "C18": {"technique": "TLA+ model of concurrent atomic adds checked by TLC over all interleavings (with negative controls); stress results from real threads validated by TLC",
+            "text": "The model decides the design for every interleaving of a few processes; whether `lock add`, fetch_add and atomic_rmw as emitted are really indivisible can only be stressed: many threads on mixed engines hammer one word and TLC validates that the final value is the only admissible one and that no other byte moved. A lost update is a sound alarm; its absence is statistical.",
             "note": NOTE_COMMON},
 })
 NOT_APPLICABLE = {}
